@@ -78,11 +78,9 @@ func (h *harness) selfTest(phase string) *selfTestReport {
 	}
 	g := &gen{h: h, r: newSelfTestRand(phase, h.nextExtra)}
 	check := func(name string, s *script, want []string, wantBlocks, wantTxs int64) *scriptResult {
+		h.quiesce()
 		b0, t0 := h.blocksQueued.Load(), h.txsHandled.Load()
 		r := h.runScript(s)
-		for i := 0; i < 1000 && (h.blocksQueued.Load()-b0 < wantBlocks || h.txsHandled.Load()-t0 < wantTxs); i++ {
-			time.Sleep(time.Millisecond)
-		}
 		for k, v := range r.Sent {
 			rep.Sent[k] += v
 		}
